@@ -387,3 +387,305 @@ Proof.
     destruct (is_word "input" t1); [intros [= _ <-]; rewrite !sz_cons; cbn [tok_size]; lia|].
     destruct (is_word "output" t1); [intros [= _ <-]; rewrite !sz_cons; cbn [tok_size]; lia|exact A].
 Qed.
+
+(* ================================================================ C. the counter is never exhausted *)
+
+(* close a goal [Oof <> Oof] (at any result type) from a fact [... -> Oof <> Oof] at another type *)
+Ltac oof N := intros _; apply N; try reflexivity.
+
+Lemma n_primary_noof rec ts : (forall ts', sz ts' < sz ts -> rec ts' <> Oof) -> n_primary rec ts <> Oof.
+Proof.
+  intros H. unfold n_primary. destruct ts as [|t r0]; [discriminate|].
+  destruct t; try discriminate; try (destruct s; discriminate).
+  specialize (H r0). rewrite sz_cons in H. cbn [tok_size] in H.
+  destruct (rec r0) as [t [|t' r']| |]; try discriminate; [destruct t'; discriminate|]. oof H. lia.
+Qed.
+
+Lemma i_operand_noof rec ts : (forall ts', sz ts' < sz ts -> rec ts' <> Oof) -> i_operand rec ts <> Oof.
+Proof.
+  intros H. unfold i_operand. pose proof (unary_ops_size ts) as U.
+  destruct (unary_ops ts) as [us r0]. cbn [snd] in U.
+  pose proof (n_primary_noof rec r0) as N.
+  destruct (n_primary rec r0); try discriminate. oof N. intros. apply H. lia.
+Qed.
+
+Lemma i_tail_noof rec : shr rec -> forall fuel ts, sz ts < fuel ->
+  (forall ts', sz ts' < sz ts -> rec ts' <> Oof) -> i_tail rec fuel ts <> Oof.
+Proof.
+  intros Hrec. induction fuel as [|f IH]; intros ts F H; [lia|]. cbn [i_tail].
+  destruct (split_binop ts) as [[o r0]|] eqn:S; [|discriminate]. apply split_binop_size in S.
+  pose proof (i_operand_noof rec r0) as N.
+  destruct (i_operand rec r0) as [its r'| |] eqn:E; try discriminate.
+  - apply (i_operand_shr rec Hrec) in E. specialize (IH r').
+    destruct (i_tail rec f r'); try discriminate. oof IH; [lia|]. intros. apply H. lia.
+  - oof N. intros. apply H. lia.
+Qed.
+
+Lemma peg_iterm_noof : forall fuel ts, sz ts < fuel -> peg_iterm fuel ts <> Oof.
+Proof.
+  induction fuel as [|f IH]; intros ts F; [lia|]. cbn [peg_iterm].
+  pose proof (i_operand_noof (peg_iterm f) ts) as N.
+  destruct (i_operand (peg_iterm f) ts) as [its r0| |] eqn:E; try discriminate.
+  - apply (i_operand_shr _ (peg_iterm_shr f)) in E.
+    pose proof (i_tail_noof (peg_iterm f) (peg_iterm_shr f) f r0) as T.
+    destruct (i_tail (peg_iterm f) f r0) as [more r'| |]; try discriminate.
+    + destruct (pratt_iterm (its ++ more)); discriminate.
+    + oof T; [lia|]. intros. apply IH. lia.
+  - oof N. intros. apply IH. lia.
+Qed.
+
+Lemma peg_gterm_noof fuel ts : sz ts < fuel -> peg_gterm fuel ts <> Oof.
+Proof.
+  intros F. unfold peg_gterm. pose proof (peg_iterm_noof fuel ts F) as N.
+  assert (G : match peg_iterm fuel ts with
+              | Ok t r => Ok (GInt t) r
+              | Oof => Oof
+              | Fail =>
+                  match ts with
+                  | TFun c SSymbol :: r => Ok (GSym (SFun c)) r
+                  | TWord s :: r => Ok (GSym (SSym s)) r
+                  | TVar x SSymbol :: r => Ok (GSym (SVar x)) r
+                  | TVar x SGeneral :: r => Ok (GVar x) r
+                  | TInf :: r => Ok GInf r
+                  | TSup :: r => Ok GSup r
+                  | _ => Fail
+                  end
+              end <> Oof).
+  { destruct (peg_iterm fuel ts); try discriminate; [|congruence].
+    destruct ts as [|t r0]; [discriminate|]. destruct t; try discriminate; destruct s; discriminate. }
+  destruct ts as [|t r0]; [exact G|]. destruct t; try exact G. destruct s; try exact G. discriminate.
+Qed.
+
+Lemma peg_terms_noof : forall fuel ts, sz ts + 1 < fuel -> peg_terms fuel ts <> Oof.
+Proof.
+  induction fuel as [|f IH]; intros ts F; [lia|]. cbn [peg_terms].
+  pose proof (peg_gterm_noof f ts) as N.
+  destruct (peg_gterm f ts) as [t r0| |] eqn:E; try discriminate; [|oof N; lia].
+  apply peg_gterm_shr in E.
+  destruct r0 as [|t0 r1]; [discriminate|]. destruct t0; try discriminate.
+  specialize (IH r1). rewrite sz_cons in E. destruct (peg_terms f r1); try discriminate. oof IH. lia.
+Qed.
+
+Lemma peg_tuple_noof fuel ts : sz ts < fuel -> peg_tuple fuel ts <> Oof.
+Proof.
+  intros F. unfold peg_tuple. destruct ts as [|t r0]; [discriminate|]. destruct t; try discriminate.
+  rewrite sz_cons in F. cbn [tok_size] in F.
+  pose proof (peg_terms_noof fuel r0) as N.
+  destruct (peg_terms fuel r0) as [l [|t' r']| |]; try discriminate.
+  - destruct t'; discriminate.
+  - destruct r0 as [|t' r']; [discriminate|]. destruct t'; discriminate.
+  - oof N. lia.
+Qed.
+
+Lemma peg_atom_noof fuel ts : sz ts < fuel -> peg_atom fuel ts <> Oof.
+Proof.
+  intros F. unfold peg_atom. destruct ts as [|t r0]; [discriminate|]. destruct t; try discriminate.
+  rewrite sz_cons in F. pose proof (peg_tuple_noof fuel r0) as N.
+  destruct (peg_tuple fuel r0); try discriminate. oof N. lia.
+Qed.
+
+Lemma peg_guards_noof : forall fuel ts, sz ts + 1 < fuel -> peg_guards fuel ts <> Oof.
+Proof.
+  induction fuel as [|f IH]; intros ts F; [lia|]. cbn [peg_guards].
+  destruct (split_rel ts) as [[rl r0]|] eqn:S; [|discriminate]. apply split_rel_size in S.
+  pose proof (peg_gterm_noof f r0) as N.
+  destruct (peg_gterm f r0) as [t r'| |] eqn:E; try discriminate; [|oof N; lia].
+  apply peg_gterm_shr in E. specialize (IH r').
+  destruct (peg_guards f r'); try discriminate. oof IH. lia.
+Qed.
+
+Lemma peg_comparison_noof fuel ts : sz ts + 1 < fuel -> peg_comparison fuel ts <> Oof.
+Proof.
+  intros F. unfold peg_comparison. pose proof (peg_gterm_noof fuel ts) as N.
+  destruct (peg_gterm fuel ts) as [t r0| |] eqn:E; try discriminate; [|oof N; lia].
+  apply peg_gterm_shr in E. pose proof (peg_guards_noof fuel r0) as G.
+  destruct (peg_guards fuel r0) as [[|g gs] r'| |]; try discriminate. oof G. lia.
+Qed.
+
+Lemma peg_atomic_noof fuel ts : sz ts + 1 < fuel -> peg_atomic fuel ts <> Oof.
+Proof.
+  intros F. unfold peg_atomic.
+  assert (G : match peg_comparison fuel ts with
+              | Ok a r => Ok a r | Oof => Oof | Fail => peg_atom fuel ts end <> Oof).
+  { pose proof (peg_comparison_noof fuel ts F) as N.
+    destruct (peg_comparison fuel ts); try discriminate; [|congruence]. apply peg_atom_noof. lia. }
+  destruct ts as [|t r0]; [exact G|]. destruct t; try exact G; discriminate.
+Qed.
+
+Lemma f_prefixes_noof : forall fuel ts, sz ts < fuel -> f_prefixes fuel ts <> Oof.
+Proof.
+  induction fuel as [|f IH]; intros ts F; [lia|]. cbn [f_prefixes].
+  destruct (peg_prefix ts) as [[p r0]|] eqn:E; [|discriminate]. apply peg_prefix_size in E.
+  specialize (IH r0). destruct (f_prefixes f r0); try discriminate. oof IH. lia.
+Qed.
+
+Lemma f_atomic_noof afuel ts : sz ts + 1 < afuel -> f_atomic afuel ts <> Oof.
+Proof.
+  intros F. unfold f_atomic. pose proof (peg_atomic_noof afuel ts F). destruct (peg_atomic afuel ts); congruence.
+Qed.
+
+Lemma f_primary_noof rec afuel ts : (forall ts', sz ts' < sz ts -> rec ts' <> Oof) -> sz ts + 1 < afuel ->
+  f_primary rec afuel ts <> Oof.
+Proof.
+  intros H F. unfold f_primary. pose proof (f_atomic_noof afuel ts F) as A.
+  destruct ts as [|t r0]; [exact A|]. destruct t; try exact A.
+  specialize (H r0). rewrite sz_cons in H. cbn [tok_size] in H.
+  destruct (rec r0) as [t [|t' r']| |]; try exact A; [destruct t'; try exact A; discriminate|]. oof H. lia.
+Qed.
+
+Lemma f_operand_noof rec afuel fuel ts : (forall ts', sz ts' < sz ts -> rec ts' <> Oof) ->
+  sz ts + 1 < afuel -> sz ts < fuel -> f_operand rec afuel fuel ts <> Oof.
+Proof.
+  intros H A F. unfold f_operand. pose proof (f_prefixes_noof fuel ts F) as N.
+  destruct (f_prefixes fuel ts) as [ps r0| |] eqn:E; try discriminate; [|congruence].
+  apply f_prefixes_shr in E. pose proof (f_primary_noof rec afuel r0) as P.
+  destruct (f_primary rec afuel r0); try discriminate. oof P; [intros; apply H; lia|lia].
+Qed.
+
+Lemma f_tail_noof rec afuel : shr rec -> forall fuel ts, sz ts + 1 < fuel -> sz ts + 1 < afuel ->
+  (forall ts', sz ts' < sz ts -> rec ts' <> Oof) -> f_tail rec afuel fuel ts <> Oof.
+Proof.
+  intros Hrec. induction fuel as [|f IH]; intros ts F A H; [lia|]. cbn [f_tail].
+  destruct (peg_infix ts) as [[c r0]|] eqn:S; [|discriminate]. apply peg_infix_size in S.
+  pose proof (f_operand_noof rec afuel f r0) as N.
+  destruct (f_operand rec afuel f r0) as [its r'| |] eqn:E; try discriminate.
+  - apply (f_operand_shr rec afuel f Hrec) in E. specialize (IH r').
+    destruct (f_tail rec afuel f r'); try discriminate. oof IH; [lia|lia|]. intros. apply H. lia.
+  - oof N; [intros; apply H; lia|lia|lia].
+Qed.
+
+Lemma peg_formula_noof : forall fuel ts, sz ts + 2 < fuel -> peg_formula fuel ts <> Oof.
+Proof.
+  induction fuel as [|f IH]; intros ts F; [lia|]. cbn [peg_formula].
+  pose proof (f_operand_noof (peg_formula f) f f ts) as N.
+  destruct (f_operand (peg_formula f) f f ts) as [its r0| |] eqn:E; try discriminate.
+  - apply (f_operand_shr _ _ _ (peg_formula_shr f)) in E.
+    pose proof (f_tail_noof (peg_formula f) f (peg_formula_shr f) f r0) as T.
+    destruct (f_tail (peg_formula f) f f r0) as [more r'| |]; try discriminate.
+    + destruct (pratt_formula (its ++ more)); discriminate.
+    + oof T; [lia|lia|]. intros. apply IH. lia.
+  - oof N; [intros; apply IH; lia|lia|lia].
+Qed.
+
+Lemma peg_formula_lead_noof fuel ts : sz ts + 2 < fuel -> peg_formula_lead fuel ts <> Oof.
+Proof.
+  intros F. destruct fuel as [|f]; [lia|]. cbn [peg_formula_lead].
+  pose proof (f_primary_noof (peg_formula f) f ts) as N.
+  destruct (f_primary (peg_formula f) f ts) as [t r0| |] eqn:E; try discriminate.
+  - apply (f_primary_shr _ _ (peg_formula_shr f)) in E.
+    pose proof (f_tail_noof (peg_formula f) f (peg_formula_shr f) f r0) as T.
+    destruct (f_tail (peg_formula f) f f r0) as [more r'| |]; try discriminate.
+    + destruct (pratt_formula (PPrim t :: more)); discriminate.
+    + oof T; [lia|lia|]. intros. apply peg_formula_noof. lia.
+  - oof N; [intros; apply peg_formula_noof; lia|lia].
+Qed.
+
+Lemma peg_annot_noof fuel ts : sz ts + 2 < fuel -> peg_annot fuel ts <> Oof.
+Proof.
+  intros F. unfold peg_annot. destruct ts as [|t r0]; [discriminate|].
+  destruct (role_of_tok t) as [ro|]; [|discriminate].
+  pose proof (peg_direction_size r0) as D. destruct (peg_direction r0) as [d r1]. cbn [snd] in D.
+  pose proof (peg_name_size r1) as N. destruct (peg_name r1) as [n r2]. cbn [snd] in N.
+  destruct r2 as [|t2 r3]; [discriminate|]. destruct t2; try discriminate.
+  rewrite !sz_cons in *. pose proof (peg_formula_noof fuel r3) as P.
+  destruct (peg_formula fuel r3); try discriminate. oof P. lia.
+Qed.
+
+Lemma peg_ug_annot_noof fuel ts : sz ts + 2 < fuel -> peg_ug_annot fuel ts <> Oof.
+Proof.
+  intros F. unfold peg_ug_annot. pose proof (peg_annot_noof fuel ts F). destruct (peg_annot fuel ts); congruence.
+Qed.
+
+Lemma peg_ug_entry_noof fuel ts : sz ts + 2 < fuel -> peg_ug_entry fuel ts <> Oof.
+Proof.
+  intros F. unfold peg_ug_entry. pose proof (peg_ug_annot_noof fuel ts F) as A.
+  repeat match goal with
+         | |- context [match ?x with _ => _ end] => destruct x
+         | |- context [if ?b then _ else _] => destruct b
+         end; try exact A; discriminate.
+Qed.
+
+Section DottedNoOof.
+  Context {A : Type}.
+  Variable entry : nat -> list token -> res A.
+  Variable k : nat.
+  Hypothesis entry_shr : forall fuel, shr (entry fuel).
+  Hypothesis entry_noof : forall fuel ts, sz ts + k < fuel -> entry fuel ts <> Oof.
+
+  Lemma peg_dotted_noof : forall fuel ts, sz ts + k + 1 < fuel -> peg_dotted entry fuel ts <> Oof.
+  Proof.
+    induction fuel as [|f IH]; intros ts F; [lia|]. cbn [peg_dotted].
+    pose proof (entry_noof f ts) as N.
+    destruct (entry f ts) as [x [|t r]| |] eqn:E; try discriminate; [|oof N; lia].
+    destruct t; try discriminate. apply entry_shr in E. rewrite sz_cons in E.
+    specialize (IH r). destruct (peg_dotted entry f r); try discriminate. oof IH. lia.
+  Qed.
+End DottedNoOof.
+
+Lemma finish_noof {A B} (r : res A) (ir : A -> bool) (conv : A -> B) : r <> Oof -> finish r ir conv <> PR_oof.
+Proof.
+  unfold finish. intros H. destruct r as [a [|t rest]| |]; try discriminate; [|congruence].
+  destruct (ir a); discriminate.
+Qed.
+
+Lemma fuel_of_enough ts : sz ts + 3 < fuel_of ts.
+Proof. unfold fuel_of. lia. Qed.
+
+(* ================================================================ D. the entry points *)
+
+Theorem parse_formula_toks_noof ts : parse_formula_toks ts <> PR_oof.
+Proof. apply finish_noof, peg_formula_noof. pose proof (fuel_of_enough ts). lia. Qed.
+
+Theorem parse_theory_toks_noof ts : parse_theory_toks ts <> PR_oof.
+Proof.
+  apply finish_noof. apply (peg_dotted_noof peg_formula 2 peg_formula_shr peg_formula_noof).
+  pose proof (fuel_of_enough ts). lia.
+Qed.
+
+Theorem parse_spec_toks_noof ts : parse_spec_toks ts <> PR_oof.
+Proof.
+  apply finish_noof. apply (peg_dotted_noof peg_annot 2 peg_annot_shr peg_annot_noof).
+  pose proof (fuel_of_enough ts). lia.
+Qed.
+
+Theorem parse_ug_raw_toks_noof ts : parse_ug_raw_toks ts <> PR_oof.
+Proof.
+  apply finish_noof. apply (peg_dotted_noof peg_ug_entry 2 peg_ug_entry_shr peg_ug_entry_noof).
+  pose proof (fuel_of_enough ts). lia.
+Qed.
+
+Theorem parse_ug_toks_noof ts : parse_ug_toks ts <> PR_oof.
+Proof.
+  apply finish_noof. apply (peg_dotted_noof peg_ug_entry 2 peg_ug_entry_shr peg_ug_entry_noof).
+  pose proof (fuel_of_enough ts). lia.
+Qed.
+
+Lemma on_text_noof {A} (p : list token -> presult A) s : (forall ts, p ts <> PR_oof) -> on_text p s <> PR_oof.
+Proof. intros H. unfold on_text. destruct (lex s); [apply H|discriminate]. Qed.
+
+Theorem parse_formula_str_noof s : parse_formula_str s <> PR_oof.
+Proof.
+  unfold parse_formula_str. destruct (lex s) as [ts|]; [|discriminate].
+  destruct (chars s) as [|c cs]; [discriminate|].
+  assert (N : (if is_space c || Ascii.eqb c "%"%char then peg_formula_lead (fuel_of ts) ts
+               else peg_formula (fuel_of ts) ts) <> Oof).
+  { pose proof (fuel_of_enough ts).
+    destruct (is_space c || Ascii.eqb c "%"%char); [apply peg_formula_lead_noof|apply peg_formula_noof]; lia. }
+  pose proof (finish_noof _ formula_in_range (fun x : formula => x) N) as FN.
+  destruct (if is_space c || Ascii.eqb c "%"%char then peg_formula_lead (fuel_of ts) ts
+            else peg_formula (fuel_of ts) ts) as [f [|t rest]| |]; try exact FN.
+  destruct (keyword_at_end f && ends_at_word s); [discriminate|exact FN].
+Qed.
+
+Theorem fol_never_out_of_fuel :
+  (forall ts, parse_formula_toks ts <> PR_oof /\ parse_theory_toks ts <> PR_oof /\
+              parse_spec_toks ts <> PR_oof /\ parse_ug_toks ts <> PR_oof /\ parse_ug_raw_toks ts <> PR_oof) /\
+  (forall s, parse_formula_str s <> PR_oof /\ parse_theory_str s <> PR_oof /\
+             parse_spec_str s <> PR_oof /\ parse_ug_str s <> PR_oof /\ parse_ug_raw_str s <> PR_oof).
+Proof.
+  split.
+  - intros ts. repeat split; [apply parse_formula_toks_noof|apply parse_theory_toks_noof|
+      apply parse_spec_toks_noof|apply parse_ug_toks_noof|apply parse_ug_raw_toks_noof].
+  - intros s. repeat split; [apply parse_formula_str_noof| | | |]; apply on_text_noof;
+      [exact parse_theory_toks_noof|exact parse_spec_toks_noof|exact parse_ug_toks_noof|exact parse_ug_raw_toks_noof].
+Qed.
